@@ -411,7 +411,8 @@ sexp sexp_integer_length (sexp ctx, sexp self, sexp_sint_t n, sexp x) {
 sexp sexp_bit_set_p (sexp ctx, sexp self, sexp_sint_t n, sexp i, sexp x) {
   sexp_sint_t pos;
 #if SEXP_USE_BIGNUMS
-  sexp_sint_t rem;
+  sexp_sint_t rem, j;
+  sexp_uint_t w;
 #endif
   if (! sexp_fixnump(i))
     return sexp_type_exception(ctx, self, SEXP_FIXNUM, i);
@@ -426,9 +427,16 @@ sexp sexp_bit_set_p (sexp ctx, sexp self, sexp_sint_t n, sexp i, sexp x) {
   } else if (sexp_bignump(x)) {
     pos /= (sizeof(sexp_uint_t)*CHAR_BIT);
     rem = (sexp_unbox_fixnum(i) - pos*sizeof(sexp_uint_t)*CHAR_BIT);
-    return sexp_make_boolean((pos < (sexp_sint_t)sexp_bignum_length(x))
-                             ? (sexp_bignum_data(x)[pos] & ((sexp_uint_t)1<<rem))
-                             : sexp_bignum_sign(x) < 0);
+    if (pos >= (sexp_sint_t)sexp_bignum_length(x))
+      return sexp_make_boolean(sexp_bignum_sign(x) < 0);
+    w = sexp_bignum_data(x)[pos];
+    if (sexp_bignum_sign(x) < 0) {
+      /* two's complement of -m is ~(m-1): borrow iff all lower words are 0 */
+      for (j=0; j<pos && sexp_bignum_data(x)[j]==0; j++)
+        ;
+      w = ~(w - (j == pos));
+    }
+    return sexp_make_boolean(w & ((sexp_uint_t)1<<rem));
 #endif
   } else {
     return sexp_type_exception(ctx, self, SEXP_FIXNUM, x);
